@@ -4,10 +4,10 @@ package main
 
 import (
 	"bufio"
-	"io"
 	"encoding/json"
 	"flag"
 	"fmt"
+	"io"
 	"os"
 	"sort"
 
